@@ -142,8 +142,8 @@ LstatOK(fs, p) == LET w == Walk(fs, <<>>, p, FALSE, Budget) IN w.st = "ok" /\ w.
 (* (filepath.EvalSymlinks) and containment is checked again                   *)
 SJoin(fs, sp, impl) ==
   LET cand == Candidate(sp)
-      n    == CHOOSE n \in 0..Len(cand) : /\ LstatOK(fs, SubSeq(cand, 1, n))
-                                          /\ \A m \in (n + 1)..Len(cand) : ~LstatOK(fs, SubSeq(cand, 1, m))
+      ex   == {k \in 0..Len(cand) : LstatOK(fs, SubSeq(cand, 1, k))}      \* never empty: "/" exists
+      n    == CHOOSE k \in ex : \A m \in ex : m <= k                        \* the longest existing prefix
       ev   == Walk(fs, <<>>, SubSeq(cand, 1, n), TRUE, Budget)
   IN IF ~(ev.st = "ok" /\ ev.ex) THEN (IF impl = "asis" THEN cand ELSE RootLoc)
      ELSE IF ~Within(ev.loc) THEN RootLoc
